@@ -35,13 +35,32 @@ def tracer_seqs(maxlen, nnames, nwaiters):
     return rec([], 0, 0)
 
 
+# two-step builder: add / build as critical sections, (9 k) = the goroutine of action k ends its deferred call
+FACTS = [[0], [1, 1], [6, 0], [7], [8]]
+
+
+def fine_seqs(maxlen):
+    def rec(prefix):
+        yield prefix
+        if len(prefix) == maxlen:
+            return
+        for a in FACTS:
+            yield from rec(prefix + [a])
+        for k in range(len(prefix)):
+            if prefix[k][0] != 9:
+                yield from rec(prefix + [[9, k]])
+    return rec([])
+
+
 class C16(Prop):
     id = "C16"
     props = "C16_Props"
-    coq_files = ("Base", "C16_Model", "C16_Spec", "C16_Proofs", "C16_Props")
-    models = ("C16_Model",)
+    coq_files = ("Base", "C16_Model", "C16_Spec", "C16_Proofs", "C16_Conc", "C16_ConcProofs", "C16_Props")
+    models = ("C16_Conc",)   # re-exports C16_Model; its c16_table holds all five kinds
     packages = {"tr": "internal/tracer"}
-    kinds = {"c16.tracer": "tr", "c16.builder": "tr"}
+    # c16.ballowed / c16.tallowed are not generated: their cases are WRITTEN by the free-running Go test
+    # (configuration + what was observed) and judged by the model; they are kinds so that a replay file works.
+    kinds = {"c16.tracer": "tr", "c16.builder": "tr", "c16.bfine": "tr", "c16.ballowed": "tr", "c16.tallowed": "tr"}
     rule = ("c16.tracer: EVERY sequence of Init/Complete/AwaitBegin/Clear/CtxDone of length <= 5 over 2 names and <= 4 over 3 names "
             "(thorough: <= 6 and <= 5) with 2 waiters, up to renaming, on a real Tracer with waiters parked in the real Await on real "
             "contexts, plus random sequences of length 6-14; c16.builder: EVERY sequence of add/build of length <= 5 (thorough 6) over "
@@ -75,11 +94,19 @@ class C16(Prop):
     def nontrivial(self, case, res):
         if case[0] == "c16.tracer":
             return "(2 " in res or "(4)" in res or "(1)" in res
+        if case[0] == "c16.bfine":
+            return res != "(() ())"
         return len(res) > 2
 
     def describe(self, case, g, m):
         if case[0] == "c16.tracer":
             return "Tracer hand-off: waiter outcomes / slot views differ from the proved model"
+        if case[0] in ("c16.ballowed", "c16.tallowed"):
+            return ("free-running goroutines: impl = 1 if the code shows the recorded outcome (last argument) again, "
+                    "model = 1 if SOME interleaving of the goroutines' critical sections gives it; 1 against 0 = the code "
+                    "does what no interleaving of the proved model does")
+        if case[0] == "c16.bfine":
+            return "two-step builder (collector call held after the critical section): calls / held goroutines differ from the proved model"
         return "builder: collector calls (count, events, indices, error) differ from the proved model"
 
     def generate(self, rng, tier):
@@ -113,6 +140,17 @@ class C16(Prop):
         for _ in range(3000 if quick else 100000):
             seq = [rng.choice(BACTS[:1] * 3 + BACTS[5:6] * 2 + BACTS) for _ in range(rng.randint(6, 12))]
             yield ["c16.builder", rng.choice(["n", "Suite/case 1", ""]), rng.randrange(2), seq]
+        # two-step builder, exhaustive small + random
+        for i, seq in enumerate(fine_seqs(4 if quick else 5)):
+            yield ["c16.bfine", "T/x" if i % 7 else "", i % 2, seq]
+        for _ in range(1500 if quick else 30000):
+            seq = []
+            for i in range(rng.randint(5, 9)):
+                if seq and rng.randrange(3) == 0:
+                    seq.append([9, rng.randrange(len(seq))])
+                else:
+                    seq.append(rng.choice(BACTS))
+            yield ["c16.bfine", rng.choice(["n", "n", "n", ""]), rng.randrange(2), seq]
 
     def _race_run(self, ctx, testname, ops, timeout):
         binp = core.go_test_bin(self, self.packages["tr"], race=True)
@@ -140,9 +178,74 @@ class C16(Prop):
             ctx.notes[testname] = body.strip()
         return vs
 
+    def _race_violation(self, what, log):
+        i = log.index("DATA RACE")
+        return core.Violation("%s: data race reported by the race detector (property: \"without data races\")" % what,
+                              "; C16 %s (go test -race): the race detector reports a data race\n; %s\n"
+                              % (what, log[max(0, i - 200):i + 3000].replace("\n", "\n; ")), "no-failing-input-found")
+
+    def _free_run(self, ctx, race, brounds, trounds, budget_ms):
+        """Free-running goroutines on real builders / a real Tracer (TestVerifC16Free).  The Go side only records
+        (configuration, observed outcome); the extracted model says whether some interleaving gives that outcome."""
+        label = "free.race" if race else "free"
+        binp = core.go_test_bin(self, self.packages["tr"], race=True) if race else ctx.bin("tr")
+        out = os.path.join(ctx.work, label + ".cases")
+        for suffix in ("", ".problems", ".stats", ".model"):
+            if os.path.exists(out + suffix):
+                os.remove(out + suffix)
+        rc, log, dt = core.run_cmd([binp, "-test.run", "^TestVerifC16Free$", "-test.count=1", "-test.timeout", "300s"],
+                                   cwd=os.path.join(core.REPO, self.packages["tr"]), timeout=330, check=False,
+                                   extra_env={"VERIF_OUT": out, "VERIF_SEED": str(ctx.seed), "VERIF_C16_BROUNDS": str(brounds),
+                                              "VERIF_C16_TROUNDS": str(trounds), "VERIF_C16_BUDGET_MS": str(budget_ms),
+                                              "GORACE": "halt_on_error=0"})
+        ctx.notes["t_%s_go_s" % label] = round(dt, 2)
+        vs = []
+        if "DATA RACE" in log:
+            vs.append(self._race_violation("TestVerifC16Free", log))
+        elif rc != 0 or not os.path.exists(out):
+            raise core.HarnessError("TestVerifC16Free (%s) failed (rc=%d):\n%s" % (label, rc, log[-4000:]))
+        if not os.path.exists(out):
+            return vs
+        ctx.notes[label] = open(out + ".stats").read().strip()
+        problems = [l for l in open(out + ".problems").read().splitlines() if l.strip()]
+        if problems:
+            vs.append(core.Violation("free-running %s" % problems[0][:200],
+                                     "; C16 free-running run (%s):\n; %s\n" % (label, "\n; ".join(problems[:5])), "no-failing-input-found"))
+        lines = [l for l in open(out).read().splitlines() if l.strip()]
+        if not lines:
+            return vs
+        tm = core.run_model(self, out, out + ".model", timeout=600)
+        ctx.notes["t_%s_model_s" % label] = round(tm, 2)
+        res = core.read_results(out + ".model")
+        bad = []
+        for l in lines:
+            c = core.parse_sx(l)
+            if res.get(str(c[1])) != "1":
+                bad.append((c, res.get(str(c[1]))))
+        ctx.notes[label + "_judged"] = len(lines)
+        for c, r in bad[:2]:
+            kind = c[0].decode()
+            case = [kind, 0] + c[2:]
+            what = ("builder: the collector calls seen with free-running goroutines are the outcome of NO interleaving of their "
+                    "add/build critical sections (builder_allowed_iff)" if kind == "c16.ballowed" else
+                    "Tracer: what the waiters got / the names show with free-running goroutines is the outcome of NO interleaving "
+                    "of Init/Complete/Await/Clear (tracer_allowed_iff)")
+            body = ("; C16 %s: %s\n; model verdict: %s   (%d of %d distinct observations rejected)\n"
+                    "; case: %s\n; last argument = what was observed\n"
+                    "; replay: ./check C16 --replay <this file>  (impl 1 = the code shows it again, model 0 = no interleaving gives it)\n%s\n"
+                    % (label, what, r, len(bad), len(lines),
+                       "name client start-mode (pre) ((script per goroutine)...) (after join) (collector calls)" if kind == "c16.ballowed"
+                       else "start-mode (pre) ((script per goroutine)...) (contexts ending) (waiters) (names) ((waiter results) (name views))",
+                       core.sx(case)))
+            vs.append(core.Violation("free-running goroutines (%s): outcome that no interleaving allows: %s" % (label, core.sx(case)[:260]), body))
+        return vs
+
     def extra(self, ctx):
         quick = ctx.tier == "quick"
-        vs = self._race_run(ctx, "TestVerifC16Race", 300 if quick else 5000, 300)
+        # free-running, judged by the model: plain binary (natural timing), then under the race detector
+        vs = self._free_run(ctx, False, 3000 if quick else 40000, 2500 if quick else 30000, 4500 if quick else 120000)
+        vs += self._free_run(ctx, True, 1000 if quick else 10000, 1000 if quick else 10000, 2500 if quick else 60000)
+        vs += self._race_run(ctx, "TestVerifC16Race", 300 if quick else 5000, 300)
         if not quick:
             vs += self._race_run(ctx, "TestVerifC16Stress", 1500, 900)
         return vs
